@@ -306,10 +306,12 @@ def large_point_case(case):
         ests = [(float(g(softmax(Z + h * D), Aff)) - float(g(softmax(Z - h * D), Aff))) / (2 * h) for h in (1e-3, 1e-3 / 8)]
         an = float((chain * D).sum())
         sc = max(abs(ests[1]), abs(an))
-        if abs(ests[0] - ests[1]) > 1e-4 * sc + 1e-9:
+        # piecewise-linear objectives (TV, Wasserstein) with n*K^2 terms cross a few kinks inside any finite step: the two estimates agree to
+        # ~1e-3 relative at best, and that is the resolution of the comparison (the changes this explorer is for are errors of order one)
+        if abs(ests[0] - ests[1]) > 1e-3 * sc + 1e-8:
             continue
         nd += 1
-        if abs(an - ests[1]) > 1e-4 * sc + 1e-8:
+        if abs(an - ests[1]) > 5e-3 * sc + 1e-7:
             v.append(violation("gradient_mismatch", {"direction": t, "analytic_directional": an, "numeric": ests[1], "n": n, "K": K, "score": float(s0)}, **where))
             break
     return {"v": v[:3], "nt": [case] if nd else [], "stats": {"evals": 1, "differentiable": int(nd > 0), "kinks": int(nd == 0)},
